@@ -93,11 +93,15 @@ try:
         p = os.path.join(a.src, fn)
         if os.path.exists(p):
             shutil.copy(p, os.path.join(out, fn))
+    notes = os.path.join(a.src, "notes.md")
+    if os.path.exists(notes):
+        meta["needs"] = open(notes, encoding="utf-8").read().strip()[:3000]
+    meta["breaks"] = a.prop
     old = os.path.join(out, "meta.json")
     if os.path.exists(old):
         try:
             prev = json.load(open(old))
-            meta["needs"] = prev.get("needs")
+            meta["needs"] = meta.get("needs") or prev.get("needs")
             meta.setdefault("history", prev.get("history", []))
             meta["history"].append({k: prev.get(k) for k in ("at", "checks")})
         except Exception:
